@@ -17,7 +17,7 @@ XH = os.path.join(ROOT, ".venv", "bin", "crosshair")
 
 
 def run_crosshair(target, per_condition_timeout=120, extra=()):
-    env = dict(os.environ, PYTHONPATH=ROOT, PYTHONHASHSEED="0")
+    env = dict(os.environ, PYTHONPATH=os.environ.get("PYTHONPATH") or ROOT, PYTHONHASHSEED="0")
     t0 = time.time()
     try:
         p = subprocess.run([XH, "check", "--report_all", "--per_condition_timeout", str(per_condition_timeout),
@@ -60,7 +60,7 @@ def replay(module, func, argstr, post):
     )
     try:
         p = subprocess.run([PY, "-c", code], capture_output=True, text=True, timeout=300,
-                           env=dict(os.environ, PYTHONPATH=ROOT))
+                           env=dict(os.environ, PYTHONPATH=os.environ.get("PYTHONPATH") or ROOT))
     except subprocess.TimeoutExpired:
         return False, "replay timed out"
     for line in p.stdout.splitlines():
